@@ -18,11 +18,11 @@ def HgOk (hg : Nat → Nat → Nat → HM → StepRes) (R : Nat) : Prop :=
   ∀ n a b, n < R → HPre n a b (matInit n) → HPost n a b (matInit n) (hg n a b (matInit n))
 
 /-- the size field of the matrix on success: `ASSERT (M.n <= (n - p - 1)/2)` (gcdext.c:296, :347) -/
-def HgMn (hg : Nat → Nat → Nat → HM → StepRes) : Prop :=
-  ∀ n a b, (hg n a b (matInit n)).ret ≠ 0 → (hg n a b (matInit n)).M.n ≤ (n - 1) / 2
+def HgMn (hg : Nat → Nat → Nat → HM → StepRes) (R : Nat) : Prop :=
+  ∀ n a b, n < R → HPre n a b (matInit n) → (hg n a b (matInit n)).ret ≠ 0 → (hg n a b (matInit n)).M.n ≤ (n - 1) / 2
 
 /-- invariant of the dc loop w.r.t. the inputs A (first operand after the initial division), V, G = gcd; the flag
-    "no store outside a buffer" is tracked under the condition P (= `HgMn hg`) only: values and sizes do not depend on it -/
+    "no store outside a buffer" is tracked under the condition P (= `HgMn hg R`) only: values and sizes do not depend on it -/
 def DInv (A V G : Nat) (P : Prop) (s : DcState) : Prop :=
   LInv s.a s.b s.n ∧ CofOk A V s.a s.b s.c.u0 s.c.u1 ∧ Nat.gcd s.a s.b = G ∧
   SzInv ⟨s.c.u0, s.c.u1, s.c.un, true⟩ ∧ (P → s.c.ok = true)
@@ -335,10 +335,10 @@ theorem dcMul_spec (A V G N a b u0 u1 un p n : Nat) (r : StepRes) (adj : Nat × 
 
 theorem dcLoop_spec (hg : Nat → Nat → Nat → HM → StepRes) (R dcThr A V G N : Nat) (hok : HgOk hg R) (hthr : 8 ≤ dcThr)
     (hR : N - N / 3 < R) (hA : A < B ^ N) (hV : V < B ^ N) :
-    ∀ (f : Nat) (s : DcState), DInv A V G (HgMn hg) s → s.a + s.b < f →
+    ∀ (f : Nat) (s : DcState), DInv A V G (HgMn hg R) s → s.a + s.b < f →
       match dcLoop hg dcThr (N + 1) f s with
-      | .inr r => ResOk A V G r ∧ (HgMn hg → r.ok = true)
-      | .inl s' => DInv A V G (HgMn hg) s'
+      | .inr r => ResOk A V G r ∧ (HgMn hg R → r.ok = true)
+      | .inl s' => DInv A V G (HgMn hg R) s'
   | 0, s, _, hf => by omega
   | f + 1, s, hinv, hf => by
     unfold dcLoop
@@ -352,9 +352,10 @@ theorem dcLoop_spec (hg : Nat → Nat → Nat → HM → StepRes) (R dcThr A V G
         · have := pow_lt_of h hlt.2; omega
       obtain ⟨g1, g2⟩ := hgRound_spec hg R A V G s.a s.b s.n s.c.u0 s.c.u1 (s.n / 3) hok hl hcof hgcd (by omega) (by omega) (by omega)
       simp only at g1 g2 ⊢
-      have hmn : HgMn hg → (hg (s.n - s.n / 3) (s.a / B ^ (s.n / 3)) (s.b / B ^ (s.n / 3)) (matInit (s.n - s.n / 3))).ret ≠ 0 →
+      have hmn : HgMn hg R → (hg (s.n - s.n / 3) (s.a / B ^ (s.n / 3)) (s.b / B ^ (s.n / 3)) (matInit (s.n - s.n / 3))).ret ≠ 0 →
           (hg (s.n - s.n / 3) (s.a / B ^ (s.n / 3)) (s.b / B ^ (s.n / 3)) (matInit (s.n - s.n / 3))).M.n ≤ (s.n - s.n / 3 - 1) / 2 :=
-        fun h => h _ _ _
+        fun h => h _ _ _ (by omega) (hpre_matInit _ _ _ (div_pow_lt (by omega) hl.2.2.1) (div_pow_lt (by omega) hl.2.2.2.1)
+          (tight_div (by omega) hl.2.2.2.2.1))
       generalize hg (s.n - s.n / 3) (s.a / B ^ (s.n / 3)) (s.b / B ^ (s.n / 3)) (matInit (s.n - s.n / 3)) = r at g1 g2 hmn ⊢
       by_cases hret : r.ret > 0
       · rw [if_pos hret]
@@ -374,7 +375,7 @@ theorem dcLoop_spec (hg : Nat → Nat → Nat → HM → StepRes) (R dcThr A V G
       · rw [if_neg hret]
         obtain ⟨ea, eb⟩ := g2 (by omega)
         rw [ea, eb]
-        have hsub := dcSubdiv_spec A V G N (HgMn hg) hV ⟨s.a, s.b, s.n, s.c⟩ ⟨hl, hcof, hgcd, hsz, hokP⟩
+        have hsub := dcSubdiv_spec A V G N (HgMn hg R) hV ⟨s.a, s.b, s.n, s.c⟩ ⟨hl, hcof, hgcd, hsz, hokP⟩
         cases hd : dcSubdiv (N + 1) ⟨s.a, s.b, s.n, s.c⟩ with
         | inr r' => rw [hd] at hsub; exact hsub
         | inl s' =>
@@ -403,17 +404,18 @@ theorem szInv_pair (x y : Nat) (hy : 1 ≤ y) : SzInv ⟨x, y, max (nlimbs x) (n
 theorem dcFirst_spec (hg : Nat → Nat → Nat → HM → StepRes) (R A V N : Nat) (hok : HgOk hg R) (h10 : 10 ≤ N)
     (hR : N - N / 2 < R) (hl : LInv A V N) :
     match dcFirst hg (N + 1) A V N with
-    | .inr r => ResOk A V (Nat.gcd A V) r ∧ (HgMn hg → r.ok = true)
-    | .inl s => DInv A V (Nat.gcd A V) (HgMn hg) s := by
+    | .inr r => ResOk A V (Nat.gcd A V) r ∧ (HgMn hg R → r.ok = true)
+    | .inl s => DInv A V (Nat.gcd A V) (HgMn hg R) s := by
   have hV : V < B ^ N := hl.2.2.2.1
   have hcof : CofOk A V A V 0 1 := ⟨1, 0, cofInv_init A V⟩
   have hsz0 : SzInv ⟨0, 1, 1, true⟩ := by unfold SzInv; rw [B_eq]; decide
   unfold dcFirst
   obtain ⟨g1, g2⟩ := hgRound_spec hg R A V (Nat.gcd A V) A V N 0 1 (N / 2) hok hl hcof rfl (by omega) (by omega) hR
   simp only at g1 g2 ⊢
-  have hmn : HgMn hg → (hg (N - N / 2) (A / B ^ (N / 2)) (V / B ^ (N / 2)) (matInit (N - N / 2))).ret ≠ 0 →
+  have hmn : HgMn hg R → (hg (N - N / 2) (A / B ^ (N / 2)) (V / B ^ (N / 2)) (matInit (N - N / 2))).ret ≠ 0 →
       (hg (N - N / 2) (A / B ^ (N / 2)) (V / B ^ (N / 2)) (matInit (N - N / 2))).M.n ≤ (N - N / 2 - 1) / 2 :=
-    fun h => h _ _ _
+    fun h => h _ _ _ hR (hpre_matInit _ _ _ (div_pow_lt (by omega) hl.2.2.1) (div_pow_lt (by omega) hl.2.2.2.1)
+      (tight_div (by omega) hl.2.2.2.2.1))
   generalize hg (N - N / 2) (A / B ^ (N / 2)) (V / B ^ (N / 2)) (matInit (N - N / 2)) = r at g1 g2 hmn ⊢
   by_cases hret : r.ret > 0
   · rw [if_pos hret]
@@ -430,7 +432,7 @@ theorem dcFirst_spec (hg : Nat → Nat → Nat → HM → StepRes) (R A V N : Na
   · rw [if_neg hret]
     obtain ⟨ea, eb⟩ := g2 (by omega)
     rw [ea, eb]
-    have hsub := dcSubdiv_spec A V (Nat.gcd A V) N (HgMn hg) hV ⟨A, V, N, ⟨0, 1, 1, true⟩⟩ ⟨hl, hcof, rfl, hsz0, fun _ => rfl⟩
+    have hsub := dcSubdiv_spec A V (Nat.gcd A V) N (HgMn hg R) hV ⟨A, V, N, ⟨0, 1, 1, true⟩⟩ ⟨hl, hcof, rfl, hsz0, fun _ => rfl⟩
     cases hd : dcSubdiv (N + 1) ⟨A, V, N, ⟨0, 1, 1, true⟩⟩ with
     | inr r' => rw [hd] at hsub; exact hsub
     | inl s' => rw [hd] at hsub; exact hsub.1
